@@ -185,7 +185,18 @@ def run_semantic(res, sources, opts=None, count=30, extra_case=None, label="prog
             continue
         if v.get("unsupported"):
             stats["entity_unsupported"] += 1
+        mt = v.get("match") or {}
+        proved = bool(mt.get("all") and mt.get("ranked") and mt.get("roots", 0) > 0 and not v.get("stateful"))
+        info["proved"] = proved
+        if proved:
+            stats["proved_for_all_inputs"] += 1
+            stats["proved_nodes"] += mt.get("bound", 0)
         mms = v.get("mismatches", [])
+        if proved and mms:
+            # the kernel-checked validator accepted a circuit that the executable semantics refutes: impossible unless
+            # the framework itself is inconsistent -- never hide it
+            res.violation({"reason": "FRAMEWORK INCONSISTENCY: scalar_end_to_end applies but the search found a disagreement",
+                           "source": c["source"], "mismatch": mms[0], "match": mt})
         hist = v.get("history") or {}
         hms = hist.get("mismatches", [])
         its = hist.get("iterate", [])
